@@ -547,6 +547,15 @@ def evaluate(ctx: Ctx, cases: List[Dict[str, Any]], res: Result, region: str, co
                 proved = (m.get("ok") or m).get("proved")
                 res.count("theorem-region:Valid+Supported_04+Proved_04 (C04_partial applies)" if proved and not inv else
                           "theorem-region:Supported_04 but outside Proved_04 (correspondence + oracle only)")
+                # what the case rests on: a package inside PackageValid.leafNamesOK has its forward references proved
+                # (forward_refs_resolve); outside it they hold because the input lies outside the finding region forwardRefDangling
+                # (F25); a run that ends in a refusal rests on the totality hypotheses of generate_total_partial (Proved_04)
+                if proved and not inv:
+                    if "ok" in m:
+                        res.count("proved-region:package inside leafNamesOK (forward references of result modules proved)" if m["ok"].get("leafNamesOK") else
+                                  "proved-region:package outside leafNamesOK (forward references hold: outside finding region F25)")
+                    else:
+                        res.count("proved-region:documented refusal (Proved_04: totality of the result-type / fragments generators is a hypothesis)")
                 if not proved:
                     res.extra.setdefault("outside_proved_samples", [])
                     if len(res.extra["outside_proved_samples"]) < 5:
@@ -871,8 +880,14 @@ def run(ctx: Ctx, st: Optional[LeanStatus]) -> Result:
         "the four custom-operation modules are compared as files only (their content is C14's model); their import is judged by the oracle",
     ]
     res.assumptions += [
-        "the harness derives both vocabularies of the model input (result-type schema and input definitions) from one graphql-core schema",
-        "graphql-core's validate (full rule set + the injected @mixin directive) is the judge of input validity; Spec/Validate.validDoc is its decidable core",
+        "the harness derives both vocabularies of the model input (result-type schema and input definitions) from one graphql-core schema "
+        "(Valid's conjunct defsMatch checks it on every case)",
+        "graphql-core's validate (full rule set + the injected @mixin directive) is the judge of input validity; Spec/Validate.validDoc is its decidable core; "
+        "Valid (Model/PackageValid.validB) must accept every generated case: cfgOK (importable custom scalars / base client, non-empty module names), mixinsOK "
+        "(@mixin sources are copied files), defsMatch, fragsAcyclic are evaluated by the driver and a rejection is reported as a mismatch",
+        "unproved region (Proved_04, evaluated by the driver on every case, counted under proved-region:*): that a run ending in an exception is a documented "
+        "refusal (totality of the result-type and fragments generator models: hypotheses ResultTypesTotal / FragmentsTotal of generate_total_partial) - covered "
+        "by correspondence and oracle only; for a run that ends in a package nothing is left to evaluation",
     ]
     if ctx.notes:
         res.extra["notes"] = ctx.notes[:20]
